@@ -321,7 +321,7 @@ def tlc_validate(ctx, name, module, files, timeout=3600, cfg=None, depth=0, coun
         if module in TRACE_PREP:        # modules generated from the trace itself (spelling tables)
             inputs.update(TRACE_PREP[module](f, d))
         procs.append((f, d, tlc_start(d, module, cfg, ["trace/%s.tla" % module], 1, (), inputs, timeout)))
-    results, states, gen, events = [], 0, 0, 0
+    results, states, gen, events, extras = [], 0, 0, 0, {}
     for f, d, p in procs:
         res = tlc_finish(p, d)
         states += res["distinct"]
@@ -334,6 +334,9 @@ def tlc_validate(ctx, name, module, files, timeout=3600, cfg=None, depth=0, coun
         if out["events"] != nlines:
             raise Broken("%s: TLC saw %d events, trace has %d" % (name, out["events"], nlines))
         events += nlines
+        for k2, v2 in out.items():      # counters of the trace module (e.g. respellings_judged)
+            if k2 not in ("events", "bad") and isinstance(v2, int):
+                extras[k2] = extras.get(k2, 0) + v2
         bad = out["bad"] if isinstance(out["bad"], list) else []
         # the trace specs record details only for the first 100 unexplained events; the others are
         # re-validated on their own (up to 4 more passes) so that every reported event has its details
@@ -357,7 +360,7 @@ def tlc_validate(ctx, name, module, files, timeout=3600, cfg=None, depth=0, coun
     ctx.cov["transitions"] += gen
     ctx.cov["traces_validated_against_impl"] += events
     ctx.cov["stages"].append(dict(stage=name + ".validate", module=module, states=states, transitions=gen, events=events,
-                                  wall_s=round(time.time() - t, 1)))
+                                  wall_s=round(time.time() - t, 1), **extras))
     log("%s: TLC validated %d events (%d states) in %.1fs" % (name, events, states, time.time() - t))
     return results
 
